@@ -37,6 +37,8 @@ MUTANTS = [
     {'name': 'tree-edges-sorted-on-read', 'rule': 'D3.order', 'file': T, 'old': "instance.edges = [Edge.from_dict(edge) for edge in tree_dict['edges']]", 'new': "instance.edges = Edge.sort_edge([Edge.from_dict(edge) for edge in tree_dict['edges']])"},
     {'name': 'tree-edges-reversed-on-read', 'rule': 'D3.order', 'file': T, 'old': "instance.edges = [Edge.from_dict(edge) for edge in tree_dict['edges']]", 'new': "instance.edges = [Edge.from_dict(edge) for edge in reversed(tree_dict['edges'])]"},
     {'name': 'gaussian-columns-sorted-on-read', 'rule': 'D3.order', 'file': G, 'old': "        columns = copula_dict['columns']\n", 'new': "        columns = sorted(copula_dict['columns'])\n"},
+    {'name': 'bivariate-save-replaces-infinite-theta', 'rule': 'D6.format', 'file': B, 'old': "        content = self.to_dict()\n        with open(filename, 'w') as f:", 'new': "        content = self.to_dict()\n        if content['theta'] == float('inf'):\n            content['theta'] = 1e308\n        with open(filename, 'w') as f:"},
+    {'name': 'bivariate-load-drops-tau', 'rule': 'D6.format', 'file': B, 'old': "            copula_dict = json.load(f)\n", 'new': "            copula_dict = json.load(f)\n            copula_dict.pop('tau', None)\n"},
 ]
 REWRITES = [
     {'name': 'vine-reorder-restores', 'file': V,
